@@ -8,8 +8,8 @@ from props.suboracles import o_canon
 class C11(PropBase):
     id = 'C11'
     obs = {'nld', 'rtnl', 'nlg', 'has', 'nodes', 'meta'}
-    rule = ('removal-enabled graph (both classes; reciprocal pairs, self-loops, isolated and attributed nodes, graph attributes; int or '
-            'string ids) -> node_link_data -> json.dumps -> json.loads: directedness recorded, every node with its attributes, one link '
+    rule = ('removal-enabled graph (both classes; reciprocal pairs, self-loops, isolated and attributed nodes, graph attributes; int, '
+            'ASCII or non-ASCII string ids) -> node_link_data -> json.dumps -> json.loads: directedness recorded, every node with its attributes, one link '
             '{source,target,time} per interaction and present instant (oriented when directed); node_link_graph of that data: same class, '
             'nodes, attributes, presence; data without a "directed" entry uses the argument. non-trivial = graph with an isolated node and '
             'a multi-instant run')
